@@ -9,6 +9,25 @@ import (
 
 func init() {
 	vfHarnesses["H_frame"] = H_frame
+	vfHarnesses["H_frame_det"] = H_frame_det
+}
+
+// H_frame_det (C14, sequential part): the same input and options delivered in two different ways
+// that do not involve Flush give byte-identical frames.
+func H_frame_det() {
+	o := hReadOpts()
+	in := hInput()
+	var a, b hSink
+	a.failAt, b.failAt = -1, -1
+	za := NewWriter(&a)
+	zb := NewWriter(&b)
+	vfAssume(za.Apply(o.options()...) == nil)
+	vfAssume(zb.Apply(o.options()...) == nil)
+	okA := hDeliver(za, in, vfParam("delivA"), vfParam("k"))
+	okB := hDeliver(zb, in, vfParam("delivB"), vfParam("k2"))
+	vfAssert("fdet-both-succeed", vfAnd(okA, okB))
+	vfAssert("fdet-identical-frames", vfEqBytes(a.buf, b.buf))
+	vfReach("end")
 }
 
 var hErrInjected = errors.New("verif: injected I/O failure")
@@ -133,10 +152,22 @@ func hInput() []byte {
 	n := vfParam("n")
 	period := vfParam("period")
 	if period < 0 {
-		// concrete content (used where symbolic content would only pose hash-collision searches)
+		// concrete content (used where symbolic content would only pose hash-collision searches, and
+		// for block-size inputs); period <= -1000: the last two bytes are symbolic
+		m := -period
+		sym := 0
+		if m >= 1000 {
+			m -= 1000 - 17
+			sym = 2
+		}
 		in := make([]byte, n)
 		for i := range in {
-			in[i] = byte(0x61 + (i*7+i/3)%(-period))
+			in[i] = byte(0x61 + (i*7+i/3)%m)
+		}
+		for i := n - sym; i < n; i++ {
+			if i >= 0 {
+				in[i] = vfByte("in")
+			}
 		}
 		return in
 	}
@@ -230,7 +261,7 @@ func hReadBack(stream []byte, rb int, srcMode int, blockSize int) (out []byte, f
 	case 4:
 		sizes = []int{blockSize - 1}
 	}
-	for i := 0; i < 64; i++ {
+	for i := 0; i < 1<<20; i++ {
 		buf := make([]byte, sizes[i%len(sizes)])
 		n, err := zr.Read(buf)
 		out = append(out, buf[:n]...)
@@ -262,6 +293,10 @@ func H_frame() {
 	ok := hDeliver(zw, in, deliv, k)
 	vfAssert("rt-writer-no-error", ok)
 
+	if vfParam("spec") == 0 {
+		goto readback
+	}
+	{
 	// C09: the emitted bytes are one well-formed frame for an independent parser
 	fi := refFrame(sink.buf, true)
 	vfAssert("spec-frame-accepted", fi.ok)
@@ -278,7 +313,8 @@ func H_frame() {
 	} else {
 		vfAssert("spec-legacy-magic", fi.legacy)
 	}
-
+	}
+readback:
 	// C02: the Reader gives the input back, then a clean end of stream
 	bsz := int(hBlockSizes[o.bs])
 	if o.legacy != 0 {
